@@ -40,6 +40,9 @@ type CrudOp struct {
 type C01Case struct {
 	Common
 	Variant string     `json:"variant"`
+	// Remote: the clients reach the store through the gRPC client adapter, the simulated transport and the server
+	// (concurrent handlers over one state)
+	Remote bool `json:"remote,omitempty"`
 	Hist    HistCfg    `json:"hist"`
 	Clients [][]CrudOp `json:"clients"`
 }
@@ -123,6 +126,7 @@ func (c01) Gen(seed uint64, tier string) Case {
 	c := &C01Case{Common: Common{Prop: "C01", Seed: seed, Tier: tier}}
 	c.Variant = storeVariants[r.Intn(len(storeVariants))]
 	nss := variantNamespaces(c.Variant)
+	c.Remote = remoteAvailable && r.Bool(0.2)
 	nclients := 2 + r.Intn(3)
 	maxOps := 6
 	if tier == "thorough" {
@@ -167,6 +171,11 @@ func (c01) Shrink(cs Case) []Case {
 				out = append(out, n)
 			}
 		}
+	}
+	if c.Remote {
+		n := cloneJSON(c)
+		n.Remote = false
+		out = append(out, n)
 	}
 	if c.Variant != "inmem" {
 		n := cloneJSON(c)
@@ -324,6 +333,9 @@ func makeCrudModel(init modelState) porcupine.Model {
 					n.Created = e.Created
 					got := snapEntry(o.Snap)
 					n.Updated = got.Updated
+					if got.Created == 0 {
+						got.Created = n.Created // not observed by this call (remote leg)
+					}
 					if got != n {
 						return false, s
 					}
@@ -438,6 +450,9 @@ type crudClient struct {
 	recs *[]crudRec
 	ev   *int64
 	out  *Outcome
+	// remote: the gRPC client writes back version, owner and update time only - the creation time of the caller's object
+	// says nothing about the store (reads do)
+	remote bool
 }
 
 func (cl *crudClient) record(in crudIn, call int64, o crudOut) {
@@ -516,6 +531,9 @@ func (cl *crudClient) do(ctx context.Context, op CrudOp) {
 		o := crudOut{Err: cl.classify(err, op)}
 		if err == nil {
 			o.Snap = SnapOf(r)
+			if cl.remote {
+				o.Snap.Created = 0
+			}
 			cl.held[key] = r
 			cl.out.probe("write-ok")
 		} else if o.Err.Conflict && !o.Err.Owner && !o.Err.Phase {
@@ -583,8 +601,13 @@ func (c01) Run(t *testing.T, cs Case, trace bool) *Outcome {
 		w := NewStoreWorld(c.Variant, c.Hist)
 		ctx, cancel := context.WithCancel(context.Background())
 		defer cancel()
+		var core state.CoreState = w.Core
+		var tr *simTransport
+		if c.Remote {
+			core, tr = remoteCore(w.Core, nil, out)
+		}
 		for i, ops := range c.Clients {
-			cl := &crudClient{id: i, st: w.Core, held: map[string]resource.Resource{}, recs: &recs, ev: &ev, out: out}
+			cl := &crudClient{id: i, remote: c.Remote, st: core, held: map[string]resource.Resource{}, recs: &recs, ev: &ev, out: out}
 			s.Spawn(fmt.Sprintf("client%d", i), func() {
 				for _, op := range ops {
 					cl.do(ctx, op)
@@ -595,6 +618,7 @@ func (c01) Run(t *testing.T, cs Case, trace bool) *Outcome {
 			out.HarnessErr = fmt.Sprintf("C01 run did not become quiescent: %v live=%v", r, s.Live())
 			return
 		}
+		tr.checkServerAlive("C01", out)
 		if n := s.LiveCount(); n != 0 {
 			out.violate("C01/termination", "blocked-call", "CRUD calls still blocked at quiescence: %v", s.Live())
 		}
